@@ -194,7 +194,11 @@ var leafA = qast.Lf(qast.Leaf{Kind: qast.LTerm, Val: qast.W("a")})
 // shrinkTrees proposes smaller trees: (1) each child hoisted to the root, (2) each non-leaf
 // subtree replaced by the leaf a, (3) each child hoisted over its parent in place, (4) each
 // non-`a` leaf replaced by a, (5) numeric arguments dropped.
-func shrinkTrees(t *qast.Node) []*qast.Node {
+func shrinkTrees(t *qast.Node) []*qast.Node { return shrinkTreesWith(t, leafA) }
+
+// shrinkTreesWith is shrinkTrees with a caller-chosen simplest leaf.
+func shrinkTreesWith(t *qast.Node, leafA *qast.Node) []*qast.Node {
+	simplest := qast.Describe(leafA)
 	var out []*qast.Node
 	if t.L != nil {
 		out = append(out, t.L)
@@ -234,7 +238,7 @@ func shrinkTrees(t *qast.Node) []*qast.Node {
 							changed = true
 						}
 					case 3:
-						if x.Op == qast.OLeaf && !(x.Leaf.Kind == qast.LTerm && x.Leaf.Val == qast.W("a")) {
+						if x.Op == qast.OLeaf && qast.Describe(x) != simplest {
 							*p = leafA
 							changed = true
 						}
